@@ -489,6 +489,14 @@ class Exec:
 
     def cmd(self, conn: str, line: bytes) -> bytes:
         out = self.w.cmd(conn, line)
+        c = self.w.conns[conn]
+        if self.maildir and not c.done and not re.search(
+                rb'(^|\r\n)' + re.escape(conn.encode()) + rb'\d+ (OK|NO|BAD)', out):
+            # the command waits (the maildir backend retries a lock file it found taken, with
+            # sleeps): let virtual time pass - its waits are bounded - and read again
+            self.w.loop.settle(max_vtime=self.w.loop.time() + 30)
+            out += c.take()
+            self.n_waited = getattr(self, 'n_waited', 0) + 1
         if conn in ('a', 'o'):
             self.log.append(((OTHER_TAG if conn == 'o' else '') + line[:300].decode('latin-1'),
                              out[:2000].decode('latin-1')))
